@@ -3,6 +3,7 @@
 
   FutureFSM       labtech.runners.process.Future
   SmallModels     labtech.utils.LoggerFileProxy, labtech.utils.OrderedSet, labtech.runners.process.ProcessMonitor
+  TopList         TaskMonitor: the displayed list of top active tasks (stable sort, reversal, top_n, column alignment)
   TaskDef         the class decorator labtech.task: what it refuses, and the options / behaviour of the type it returns
   CycleCheck      TaskState.check_cyclic_dependences: the code's DFS against reachability on every small dependency graph
   StorageSeq      the Storage interface as a sequential object: LocalStorage and FsspecStorage (local filesystem)
@@ -123,6 +124,34 @@ def task_def(scratch):
                 + (f'; first: {json.dumps(first)[:400]}' if first else ''))
 
 
+def top_list(scratch):
+    """TopList: the task monitor's list of top active tasks, every case of the model through the real TaskMonitor."""
+    r = tlc.run_tlc('TopList', 'TopList_gen.cfg', scratch=scratch, workers=4, heap='2g', tag='pg', timeout=900)
+    if r.error or r.violated:
+        return False, f'TopList: model failed: {r.error or r.violated}'
+    cases = [json.loads(p) for p in r.prints]
+    obs = harness.run_jobs([{'id': f'tl{i}', 'cases': cases[i::4]} for i in range(4)], scratch, module='lv.rigs.toplist', procs=4)
+    bad = []
+    for o in [x for x in obs if len(x['got']['lines']) >= 2][:200]:
+        g = json.loads(json.dumps(o['got']))
+        g['lines'][0], g['lines'][1] = g['lines'][1], g['lines'][0]
+        if g != o['got']:
+            bad.append(dict(o, id=o['id'] + '~corrupt', got=g))
+    f = scratch / 'obs_toplist.ndjson'
+    tlc.dump_ndjson(f, [{'id': o['id'], 'case': o['case'], 'got': {k: o['got'][k] for k in ('lines', 'header_count', 'blanks')}} for o in obs + bad])
+    j = tlc.run_tlc('TopList', 'TopList_judge.cfg', scratch=scratch, workers=1, heap='2g', env={'LV_OBS': str(f)}, tag='pj', timeout=900)
+    if j.error or j.violated:
+        return False, f'TopList: judge failed: {j.error or j.violated}'
+    verdicts = {v['id']: v['ok'] for v in (json.loads(p) for p in j.prints)}
+    disagree = [o for o in obs if not verdicts.get(o['id'], False)]
+    missed = [c['id'] for c in bad if verdicts.get(c['id'], True)]
+    first = disagree[0] if disagree else None
+    ok = not disagree and not missed and len(obs) == len(cases) and len(bad) > 50
+    return ok, (f'TopList: {r.distinct} cases model-checked, {len(obs)} displays of the real TaskMonitor judged, {len(disagree)} disagree; '
+                f'{len(bad)} displays with two lines swapped, {len(bad) - len(missed)} rejected'
+                + (f'; first: {json.dumps(first)[:500]}' if first else ''))
+
+
 def labrun_growth(scratch):
     """G01 / G02: the same flow as the LabRun-based property checks (model check, schedules, R2 executions, monitor)."""
     import random
@@ -232,6 +261,9 @@ def main() -> int:
             good, msg = _one(scratch, *args)
             print(('[ok] ' if good else '[MISMATCH] ') + msg)
             ok = ok and good
+        good, msg = top_list(scratch)
+        print(('[ok] ' if good else '[MISMATCH] ') + msg)
+        ok = ok and good
         good, msg = task_def(scratch)
         print(('[ok] ' if good else '[MISMATCH] ') + msg)
         ok = ok and good
